@@ -8,7 +8,7 @@ use crate::adapter::{BinOp, Fam};
 use crate::engine::Verdict;
 use crate::model::{words_for, Tt};
 use crate::ops::{History, Op, Step, SLOTS};
-use crate::props::{c02, c09, c12, c14, c16};
+use crate::props::{c02, c09, c10, c12, c14, c16};
 use crate::sopx::{CB, SB};
 
 type R<T> = arbitrary::Result<T>;
@@ -259,6 +259,17 @@ pub fn decode_sop(data: &[u8]) -> Option<c14::Case> {
 pub fn judge(target: &str, data: &[u8]) -> Option<(&'static str, &'static str, serde_json::Value, Verdict)> {
     match target {
         "hist" => decode_hist(data).map(|c| ("C02", "histories", serde_json::to_value(&c).unwrap(), c02::run(&c))),
+        "histdiff" => decode_hist(data).map(|c| {
+            // the same byte decoder, judged by the Lut-vs-LutN differential of C10
+            let mut h = c.h.clone();
+            for st in h.steps.iter_mut() {
+                if matches!(st.op, Op::Random | Op::Default | Op::FromInt(_)) {
+                    st.op = Op::Zero;
+                }
+            }
+            let d = c10::Case { h };
+            ("C10", "diff", serde_json::to_value(&d).unwrap(), c10::run(&d))
+        }),
         "hex" => decode_hex(data).map(|c| ("C09", "parse", serde_json::to_value(&c).unwrap(), c09::run_parse(&c))),
         "cubeops" => decode_cubes(data).map(|c| ("C12", "pairs", serde_json::to_value(&c).unwrap(), c12::run(&c))),
         "sopexpr" => decode_sop(data).map(|c| ("C14", "expr", serde_json::to_value(&c).unwrap(), c14::run(&c))),
